@@ -17,6 +17,7 @@ structure Scenario where
   fault : Option Nat
   scribble : Bool
   ops : List (List String)
+  slow : Option Nat := none    -- 12.48in: the only controller whose BUSY pin stays low (others read idle)
   deriving Repr, Inhabited
 
 def parseNatList (s : String) : Option (List Nat) :=
@@ -60,7 +61,8 @@ def parseScenario (line : String) : Except String Scenario := do
     | none => throw "bad fault"
   let ops := ((← get "ops").splitOn ";").filter (· ≠ "") |>.map (·.splitOn ",")
   pure { id := ← get "id", panel := ← get "panel", delay, sched, raise,
-         busyLvl := (← get "busylvl") == "1", fault, scribble := (← get "scribble") == "1", ops }
+         busyLvl := (← get "busylvl") == "1", fault, scribble := (← get "scribble") == "1", ops,
+         slow := (lookupKey kvs "slow").bind String.toNat? }
 
 /-- buffer descriptors: z:<len> | c:<hex>:<len> | pos:<len> | r:<seed>:<len> | bit:<i>:<len> | h:<hex> -/
 def makeBuf (desc : String) : Option Bytes :=
